@@ -20,6 +20,8 @@ ASSUMPTIONS = [
     "CutShortTipBranch: edge lengths are compared as exact numbers (generated trees have axis-aligned integer edges, so float sums are exact)",
 ]
 
+RMKINDS = ["list", "list", "set", "array", "tuple", "generator", "chain", "map"]
+
 
 def lattice_tree(rng, n, shape):
     pids = gen.renumber_root0(rng, gen.parents_sorted(rng, n, shape))
@@ -135,7 +137,7 @@ class Ops(Suite):
                 for v in range(n):
                     out.append({"class": f"all-n{n}/subtree", "tree": t, "op": {"op": "subtree", "n": v}})
                 if n >= 2:
-                    out.append({"class": f"all-n{n}/tosub", "tree": t, "op": {"op": "tosub", "rm": [rng.randrange(1, n)]}})
+                    out.append({"class": f"all-n{n}/tosub", "tree": t, "op": {"op": "tosub", "rm": [rng.randrange(1, n)], "rmkind": rng.choice(RMKINDS)}})
         for n in gen.sizes(tier, widen):
             for _ in range(2 if not big else 6):
                 shape = gen.pick_shape(rng, k); k += 1
@@ -143,7 +145,7 @@ class Ops(Suite):
                 nn = t["n"]
                 ops = [{"op": "subtree", "n": rng.randrange(nn)}]
                 if nn > 1:
-                    ops += [{"op": "tosub", "rm": rng.sample(range(1, nn), rng.randint(0, min(4, nn - 1)))},
+                    ops += [{"op": "tosub", "rm": rng.sample(range(1, nn), rng.randint(0, min(4, nn - 1))), "rmkind": rng.choice(RMKINDS)},
                             {"op": "cutenter", "rm": rng.sample(range(1, nn), rng.randint(0, min(3, nn - 1)))},
                             {"op": "cutdepth", "d": rng.randint(1, 5)},
                             {"op": "cutleave", "h": rng.randint(0, 2)},
@@ -170,7 +172,13 @@ class Ops(Suite):
             y2 = t.node(op["n"]).subtree()
             extra["node_subtree_same"] = bool(np.array_equal(y.pid(), y2.pid()) and np.array_equal(y.r(), y2.r()))
         elif k == "tosub":
-            y = to_subtree(t, list(op["rm"]), out_mapping=om)
+            # `removals: Iterable[int]`: lists, sets, arrays and one-shot iterables (generator, chain, map) alike
+            rk = op.get("rmkind", "list")
+            rm = list(op["rm"])
+            import itertools
+            arg = {"list": lambda: rm, "set": lambda: set(rm), "array": lambda: np.array(rm, dtype=np.int64), "tuple": lambda: tuple(rm),
+                   "generator": lambda: (i for i in rm), "chain": lambda: itertools.chain(rm[:1], rm[1:]), "map": lambda: map(int, rm)}[rk]()
+            y = to_subtree(t, arg, out_mapping=om)
         elif k == "cutenter":
             rm = set(op["rm"])
             y = cut_tree(t, enter=lambda n, pv: ((0 if pv is None else pv + 1), n.id in rm))
